@@ -11,6 +11,9 @@ import PpciVerif.Model.TasksLegacy
   all <graph> <n>   (n ≤ 9)         `run` for every non-empty request subset of 0..n-1 (ascending list; subsets in
                                     order of their bit mask 1..2^n-1) and `check` for every t < n, in one reply:
                                     ok r1;r2;…|c0;c1;…   r = executed ranks as digits | L (loop) | N (not found), c = o | L | N
+  hist <graph> <ops>                Model.Tasks.history: ops separated by `;`:  r<a>.<b>… run [a,b,…] | c<t> check_target |
+                                    t<t>[.<d>…] add_target t (deps d…) | d<t>.<d> add_dependency;  reply  ok o1;o2;…
+                                    with o = run/check token as for `all` | u (returned None) | D (Duplicate target)
   legacy-check <graph> <t>          Model.TasksLegacy.checkTarget (code before the fix; fuel 200)
   legacy-order <graph> <req> <iter> Model.TasksLegacy.order    (iter = set iteration order)
 -/
@@ -54,6 +57,27 @@ def allOf (g : Model.Tasks.Graph) (n : Nat) : String :=
     | .error .notFound => "N")
   "ok " ++ ";".intercalate runs ++ "|" ++ ";".intercalate checks
 
+def parseOp (s : String) : Option Model.Tasks.Op :=
+  match s.toList with
+  | c :: rest =>
+    let body := String.ofList rest
+    let nums : Option (List Nat) := if body.isEmpty then some [] else (body.splitOn ".").mapM nat?
+    match c, nums with
+    | 'r', some l => some (.run l)
+    | 'c', some [t] => some (.checkTarget t)
+    | 't', some (t :: ds) => some (.addTarget t ds)
+    | 'd', some [t, d] => some (.addDependency t d)
+    | _, _ => none
+  | [] => none
+
+def showOut : Model.Tasks.Out → String
+  | .done => "u"
+  | .duplicate => "D"
+  | .ran r => tok r
+  | .checked (.ok _) => "o"
+  | .checked (.error .loop) => "L"
+  | .checked (.error .notFound) => "N"
+
 def step (line : String) : String :=
   match words line with
   | ["run", g, req] =>
@@ -70,6 +94,10 @@ def step (line : String) : String :=
   | ["all", g, n] =>
     match parseGraph g, nat? n with
     | some g, some n => if n > 9 then "bad-op" else allOf g n
+    | _, _ => "bad-op"
+  | ["hist", g, ops] =>
+    match parseGraph g, (ops.splitOn ";").mapM parseOp with
+    | some g, some ops => "ok " ++ ";".intercalate ((Model.Tasks.history g ops).map showOut)
     | _, _ => "bad-op"
   | ["legacy-check", g, t] =>
     match parseGraph g, nat? t with
